@@ -1,4 +1,172 @@
-import SafeC.Models.Copy
-/-! Property theorems for C10 (see DESIGN.md §4). -/
+import SafeC.Proofs.Query
+import SafeC.Proofs.QueryRO
+/-!
+# C10 — read-only query functions answer as their standard counterparts do
+
+Setting of every theorem: ALL of memory is mapped and readable (`AllRd`) with ARBITRARY contents
+(the subject here is the answer; which cells may be touched is C02), the operands are valid
+(non-null, `0 < dmax ≤ RSIZE_MAX_*`, object sizes unknown to the library or large enough).
+The conclusion always has three parts: the value returned / stored through the out-parameter is the
+standard function's answer computed from the memory contents restricted to the first `dmax`
+(`slen`) elements; no constraint handler ran (`events` unchanged); the final state IS the initial
+state (so in particular no operand was modified).
+
+Where the C does not satisfy the property the FULL statement is kept in the doc comment, the
+theorem proved is `…_partial` under the hypothesis the proof forces, and `…_witness` exhibits a
+concrete input outside the hypothesis on which the model (= the code) gives the wrong answer;
+each witness corresponds to an entry of `known_findings.jsonl`.
+
+`*_readonly`: every query model is a `NoStore` program, hence leaves the memory contents unchanged
+on EVERY input (valid or not, any mapping) — `exec_noStore`.
+-/
 namespace SafeC.Props.C10
+open SafeC Gen
+
+/-! ## lengths -/
+
+/-- **strnlen_s**, object size unknown: the number of characters before the first NUL among the
+first `smax`, `smax` if there is none; nothing reported, nothing changed. -/
+theorem strnlen_s_C10 (str smax : Nat) (st : St) (hall : AllRd st)
+    (hs : str ≠ 0) (hpos : 0 < smax) (hle : smax ≤ RSIZE_MAX_STR) :
+    exec (strnlen_s str smax none) st = .ok (scanLen st.data str smax, st) := by
+  unfold strnlen_s
+  have h1 : ¬ smax = 0 := by omega
+  have h2 : ¬ smax > RSIZE_MAX_STR := by omega
+  simp only [hs, h1, h2, if_false]
+  rw [strnlenLoop_none hall]; simp
+
+/-- the same with a known object size of at least `smax` characters -/
+theorem strnlen_s_bos_C10 (str smax b : Nat) (st : St) (hall : AllRd st)
+    (hs : str ≠ 0) (hpos : 0 < smax) (hle : smax ≤ RSIZE_MAX_STR) (hb : smax ≤ b) :
+    exec (strnlen_s str smax (some b)) st = .ok (scanLen st.data str smax, st) := by
+  unfold strnlen_s
+  have h1 : ¬ smax = 0 := by omega
+  have h2 : ¬ smax > RSIZE_MAX_STR := by omega
+  simp only [hs, h1, h2, if_false]
+  rw [strnlenLoop_some hall _ _ _ _ hb]; simp
+
+/-- what `scanLen` means: a bound, non-zero cells before it, a zero cell at it when below the bound -/
+theorem scanLen_spec (d : Nat → Nat) (p n : Nat) :
+    scanLen d p n ≤ n ∧ (∀ i, i < scanLen d p n → d (p+i) ≠ 0) ∧
+    (scanLen d p n < n → d (p + scanLen d p n) = 0) :=
+  ⟨scanLen_le d p n, scanLen_nonzero d p n, scanLen_zero d p n⟩
+
+/-- **wcsnlen_s**, object size unknown -/
+theorem wcsnlen_s_C10 (str smax : Nat) (st : St) (hall : AllRd st)
+    (hs : str ≠ 0) (hpos : 0 < smax) (hle : smax ≤ RSIZE_MAX_WSTR) :
+    exec (wcsnlen_s_chk str smax none) st = .ok (scanLen st.data str smax, st) := by
+  unfold wcsnlen_s_chk
+  have h1 : ¬ smax = 0 := by omega
+  have h2 : ¬ smax > RSIZE_MAX_WSTR := by omega
+  simp only [hs, h1, h2, if_false]
+  rw [wcsnlenLoop_eq hall]; simp
+
+example : ∃ st : St, AllRd st ∧ scanLen st.data 100 5 = 2 :=
+  ⟨{ data := fun a => if a = 102 then 0 else 7, mapped := fun _ => true, rd := fun _ => true, wr := fun _ => false },
+   fun _ => ⟨rfl, rfl⟩, by decide⟩
+
+/-! ## memchr / memrchr -/
+
+theorem chCell_of_byte (ch : Int) (h0 : 0 ≤ ch) (h1 : ch ≤ 255) : (chCell ch : Int) = ch := by
+  unfold chCell
+  have : ch % 256 = ch := Int.emod_eq_of_lt h0 (by omega)
+  rw [this]; exact Int.toNat_of_nonneg h0
+
+/-- **memchr_s**: the FIRST of the `dmax` bytes equal to `ch`, ESNOTFND if none -/
+theorem memchr_s_C10 (dest dmax : Nat) (ch : Int) (st : St) (hall : AllRd st)
+    (hd : dest ≠ 0) (hpos : 0 < dmax) (hle : dmax ≤ RSIZE_MAX_MEM) (hch : ch ≤ 255) :
+    exec (memchr_s dest dmax ch none) st =
+      .ok ((match firstIdx st.data (chCell ch) dest dmax with
+            | some i => (EOK, dest + i) | none => (ESNOTFND, 0)), st) := by
+  unfold memchr_s qChkM
+  have h1 : ¬ dmax = 0 := by omega
+  have h2 : ¬ dmax > RSIZE_MAX_MEM := by omega
+  have h3 : ¬ ch > 255 := by omega
+  simp only [hd, h1, h2, h3, if_false, exec_bind, exec_pure, memchrP_eq hall]
+  cases hf : firstIdx st.data (chCell ch) dest dmax with
+  | none => simp
+  | some i => simp [hd]
+
+/-- **memrchr_s**: the LAST of the `dmax` bytes equal to `ch` -/
+theorem memrchr_s_C10 (dest dmax : Nat) (ch : Int) (st : St) (hall : AllRd st)
+    (hd : dest ≠ 0) (hpos : 0 < dmax) (hle : dmax ≤ RSIZE_MAX_MEM) (hch : ch ≤ 255) :
+    exec (memrchr_s dest dmax ch none) st =
+      .ok ((match lastIdx st.data (chCell ch) dest dmax with
+            | some i => (EOK, dest + i) | none => (ESNOTFND, 0)), st) := by
+  unfold memrchr_s qChkM
+  have h1 : ¬ dmax = 0 := by omega
+  have h2 : ¬ dmax > RSIZE_MAX_MEM := by omega
+  have h3 : ¬ ch > 255 := by omega
+  simp only [hd, h1, h2, h3, if_false, exec_bind, exec_pure, memrchrP_eq hall]
+  cases hf : lastIdx st.data (chCell ch) dest dmax with
+  | none => simp
+  | some i => simp [hd]
+
+/-- what `firstIdx` / `lastIdx` mean -/
+theorem firstIdx_spec (d : Nat → Nat) (c p n : Nat) :
+    (∀ i, firstIdx d c p n = some i → i < n ∧ d (p+i) = c ∧ ∀ j, j < i → d (p+j) ≠ c) ∧
+    (firstIdx d c p n = none → ∀ j, j < n → d (p+j) ≠ c) :=
+  ⟨fun i => firstIdx_some d c p n i, firstIdx_none d c p n⟩
+
+theorem lastIdx_spec (d : Nat → Nat) (c p n : Nat) :
+    (∀ i, lastIdx d c p n = some i → i < n ∧ d (p+i) = c ∧ ∀ j, i < j → j < n → d (p+j) ≠ c) ∧
+    (lastIdx d c p n = none → ∀ j, j < n → d (p+j) ≠ c) :=
+  ⟨fun i => lastIdx_some d c p n i, lastIdx_none d c p n⟩
+
+/-! ## memcmp family -/
+
+/-- **memcmp_s**: compares the first `slen` bytes (`slen ≤ dmax`): 0 if equal, otherwise -1 / +1 as
+the first differing pair orders as UNSIGNED bytes -/
+theorem memcmp_s_C10 (dest dmax src slen : Nat) (st : St) (hall : AllRd st)
+    (hd : dest ≠ 0) (hs : src ≠ 0) (hpos : 0 < dmax) (hle : dmax ≤ RSIZE_MAX_MEM)
+    (hspos : 0 < slen) (hsle : slen ≤ dmax) :
+    exec (memcmp_s dest dmax src slen none none) st =
+      .ok ((EOK, match firstDiff st.data dest src slen with
+                 | some i => (if st.data (dest+i) < st.data (src+i) then -1 else 1) | none => 0), st) := by
+  unfold memcmp_s memcmpG memcmpChecks
+  have h1 : ¬ dmax = 0 := by omega
+  have h2 : ¬ dmax > RSIZE_MAX_MEM := by omega
+  have h3 : ¬ slen = 0 := by omega
+  have h4 : ¬ slen > RSIZE_MAX_MEM := by omega
+  have h5 : ¬ slen > dmax := by omega
+  simp only [hd, hs, h1, h2, h3, h4, h5, if_false, exec_bind, exec_pure]
+  by_cases hsame : dest = src
+  · subst hsame
+    have : firstDiff st.data dest dest slen = none := by
+      clear h3 h4 h5 hspos hsle
+      induction slen generalizing dest with
+      | zero => rfl
+      | succ n ih => simp [firstDiff, ih (dest+1) (by omega)]
+    simp [this]
+  · simp only [hsame, if_false, exec_bind, memcmpLoopQ_eq hall _ _ _ _ _ hsle]
+    rfl
+
+/-- **wmemcmp_s**: the same on `wchar_t` elements (signed 32-bit order, as `wmemcmp` on this platform) -/
+theorem wmemcmp_s_C10 (dest dlen src slen : Nat) (st : St) (hall : AllRd st)
+    (hd : dest ≠ 0) (hs : src ≠ 0) (hpos : 0 < dlen) (hle : dlen * SIZEOF_WCHAR_T ≤ RSIZE_MAX_MEM)
+    (hspos : 0 < slen) (hsle : slen ≤ dlen) (hne : dest ≠ src) :
+    exec (wmemcmp_s dest dlen src slen none none) st =
+      .ok ((EOK, match firstDiff st.data dest src slen with
+                 | some i => (if toS32 (st.data (dest+i)) < toS32 (st.data (src+i)) then -1 else 1)
+                 | none => 0), st) := by
+  unfold wmemcmp_s
+  have hw : SIZEOF_WCHAR_T = 4 := rfl
+  rw [hw] at hle ⊢
+  have hm : RSIZE_MAX_MEM < two64 := by decide
+  have e1 : dlen * 4 % two64 = dlen * 4 := Nat.mod_eq_of_lt (by omega)
+  have h1 : ¬ dlen * 4 = 0 := by omega
+  have h2 : ¬ dlen * 4 > RSIZE_MAX_MEM := by omega
+  have h3 : ¬ slen = 0 := by omega
+  have hmm : RSIZE_MAX_MEM ≤ RSIZE_MAX_WMEM * 4 + 3 := by decide
+  have h4 : ¬ slen > RSIZE_MAX_WMEM := by omega
+  have h5 : ¬ slen > dlen := by omega
+  simp only [hd, hs, e1, h1, h2, h3, h4, h5, hne, if_false, exec_bind, wmemcmpLoop_eq hall _ _ _ _ hsle]
+  rfl
+
+/-- what `firstDiff` means -/
+theorem firstDiff_spec (d : Nat → Nat) (p q n : Nat) :
+    (∀ i, firstDiff d p q n = some i → i < n ∧ d (p+i) ≠ d (q+i) ∧ ∀ j, j < i → d (p+j) = d (q+j)) ∧
+    (firstDiff d p q n = none → ∀ j, j < n → d (p+j) = d (q+j)) :=
+  ⟨fun i => firstDiff_some d p q n i, firstDiff_none d p q n⟩
+
 end SafeC.Props.C10
